@@ -691,4 +691,88 @@ theorem sender_run (att : Attempt) (p : Params) : ∀ (polls : List (Int × Byte
           rw [this]; exact hd.2
       · exact absurd hst' (hno att)
 
+/-! ## Part 3 — arithmetic about poll times and character arrival times (no station model) -/
+
+/-- Arrival model of ONE telegram of `n` characters at an observing station: `arr k` is the time from
+which character `k` is in the observer's receive buffer, `vis a` the number of characters in the buffer
+at time `a`. -/
+structure Arrivals (n : Nat) (arr : Nat → Int) (vis : Int → Nat) : Prop where
+  spec : ∀ a k, k < n → (k < vis a ↔ arr k ≤ a)
+  le : ∀ a, vis a ≤ n
+
+theorem Arrivals.mono {n : Nat} {arr : Nat → Int} {vis : Int → Nat} (h : Arrivals n arr vis) {a a' : Int}
+    (haa : a ≤ a') : vis a ≤ vis a' := by
+  apply Classical.byContradiction
+  intro hc
+  have hlt : vis a' < vis a := by omega
+  have hn : vis a' < n := Nat.lt_of_lt_of_le hlt (h.le a)
+  have h1 := (h.spec a (vis a') hn).1 hlt
+  have h2 := (h.spec a' (vis a') hn).2 (by omega)
+  omega
+
+/-- If the first character arrives within a slot time of the stamp and consecutive characters arrive
+within a slot time of each other, every time-ordered sequence of polls that see prefixes of the
+telegram (only the last poll may see all of it) is `Dense`. -/
+theorem dense_of_arrivals (slot n : Nat) (arr : Nat → Int) (vis : Int → Nat) (hA : Arrivals n arr vis)
+    (hgap : ∀ k, k + 1 < n → arr (k + 1) ≤ arr k + slot) :
+    ∀ (polls : List (Int × Bytes)) (l : Int) (m : Nat),
+      polls.Pairwise (fun x y => x.1 ≤ y.1) →
+      (∀ x ∈ polls, x.2.length = vis x.1) →
+      (∀ x ∈ polls, ∀ y ∈ polls, x.1 < y.1 → vis x.1 < n) →
+      (∀ x ∈ polls, l < x.1 → m ≤ vis x.1) →
+      (m < n → arr m ≤ l + slot) →
+      (m = n → ∀ x ∈ polls, x.1 ≤ l) →
+      Dense slot l m polls := by
+  intro polls
+  induction polls with
+  | nil => intro l m _ _ _ _ _ _; trivial
+  | cons x rest ih =>
+    intro l m hpw hlen hinc hseen hnext hdone
+    obtain ⟨a, rx⟩ := x
+    have hpw' := (List.pairwise_cons.1 hpw)
+    have hlen' : ∀ x ∈ rest, x.2.length = vis x.1 := fun x hx => hlen x (List.mem_cons_of_mem _ hx)
+    have hinc' : ∀ x ∈ rest, ∀ y ∈ rest, x.1 < y.1 → vis x.1 < n :=
+      fun x hx y hy => hinc x (List.mem_cons_of_mem _ hx) y (List.mem_cons_of_mem _ hy)
+    simp only [Dense]
+    by_cases hle : a ≤ l
+    · rw [if_pos hle]
+      exact ih l m hpw'.2 hlen' hinc' (fun x hx => hseen x (List.mem_cons_of_mem _ hx)) hnext
+        (fun hm x hx => hdone hm x (List.mem_cons_of_mem _ hx))
+    · rw [if_neg hle]
+      have hla : l < a := by omega
+      have hrl : rx.length = vis a := hlen (a, rx) (List.mem_cons_self ..)
+      have hmv : m ≤ vis a := hseen (a, rx) (List.mem_cons_self ..) hla
+      have hmn : m < n := by
+        have hle' := Nat.le_trans hmv (hA.le a)
+        rcases Nat.lt_or_ge m n with h | h
+        · exact h
+        · have := hdone (by omega) (a, rx) (List.mem_cons_self ..)
+          simp only at this
+          omega
+      rw [hrl]
+      by_cases hnew : m < vis a
+      · rw [if_pos hnew]
+        refine ih a (vis a) hpw'.2 hlen' hinc' ?_ ?_ ?_
+        · intro x hx hax
+          exact hA.mono (Int.le_of_lt hax)
+        · intro hvn
+          have hk : vis a - 1 < n := by omega
+          have h1 := (hA.spec a (vis a - 1) hk).1 (by omega)
+          have h2 := hgap (vis a - 1) (by omega)
+          have e : vis a - 1 + 1 = vis a := by omega
+          rw [e] at h2
+          omega
+        · intro hvn x hx
+          apply Classical.byContradiction
+          intro hc
+          have := hinc (a, rx) (List.mem_cons_self ..) x (List.mem_cons_of_mem _ hx) (by simp only; omega)
+          simp only at this
+          omega
+      · rw [if_neg hnew]
+        have hna : ¬ arr m ≤ a := fun h => hnew ((hA.spec a m hmn).2 h)
+        have := hnext hmn
+        refine ⟨by omega, ?_⟩
+        exact ih l m hpw'.2 hlen' hinc' (fun x hx => hseen x (List.mem_cons_of_mem _ hx)) hnext
+          (fun hm x hx => hdone hm x (List.mem_cons_of_mem _ hx))
+
 end PV
